@@ -331,4 +331,28 @@ theorem reachable_induction {P : Params} {Inv : State → Prop} (h0 : Inv init)
     | none => simp [hs] at hr
     | some s' => rw [hs] at hr; exact ih s' (hstep s0 e s' h hs) s1 hr
 
+/-! ### facts behind two modelling decisions of the transition system above -/
+
+/-- `accTimeout` is ONE step that leaves the mutex free, and the slot map of a side belongs to its ACCEPTS -/
+structure AcceptParams where
+  /-- the timer arm of `Accept`'s select is straight-line — Lock, deferred Unlock, delete, return: no channel operation,
+  no `select`, no loop, nothing that can wait while the mutex is held -/
+  timeoutArmStraight : Bool
+  /-- `delete(m.streams, …)` occurs only in that arm and in `timeoutWait`: an ESTABLISHED connection's slot is left to the
+  expiry goroutine, and `Dial` never touches the map (the IDs a side dials and the IDs it accepts are number spaces of
+  their own: each broker's `NextId` counts from 1) -/
+  mapOwnedByAcceptSide : Bool
+  deriving DecidableEq, Repr
+
+def AcceptParams.Good (A : AcceptParams) : Prop := A.timeoutArmStraight = true ∧ A.mapOwnedByAcceptSide = true
+instance (A : AcceptParams) : Decidable A.Good := by unfold AcceptParams.Good; exact inferInstance
+
+/-- is the mutex free again after an `Accept` has timed out?  (`nothingParked`: the ordinary case — no stream arrived at
+the last moment; an arm that WAITS for one then waits for ever, with the mutex) -/
+def timeoutReleasesLock (A : AcceptParams) (nothingParked : Bool) : Bool := A.timeoutArmStraight || !nothingParked
+
+/-- this side has an `Accept(m)` waiting on its slot; it then completes a `Dial(n)` (the peer's number `n`).  Is the
+accept's slot still registered under `m`? -/
+def acceptSlotAfterDial (A : AcceptParams) (n m : Nat) : Bool := A.mapOwnedByAcceptSide || n != m
+
 end GoPlugin.MuxBroker
